@@ -186,7 +186,7 @@ func c11Procedures(c *fw.Case) (o fw.Outcome) {
 		total = 14
 	}
 	msinLen := total - 3 - len(cfg.MNC)
-	lead := pick(r, "0", "00", "9", "1", "")
+	lead := []string{"0", "00", "9", "1", ""}[(k+k/len(mncs))%5] // by index: MNC 00 meets an MSIN with leading zeros in every run
 	cfg.IMSI = cfg.MCC + cfg.MNC + lead + digits(r, msinLen-len(lead)-4) + fmt.Sprintf("%04d", 1+r.Intn(200))
 	cfg.Reg, cfg.Pdu, cfg.Dereg = 1, 0, 1
 	sp := ProcSpec{Cfg: cfg, ChoiceSeed: r.Int63(), NUE: 1, Deregister: true, FaultAt: -1}
